@@ -574,7 +574,7 @@ func handleInputStream(s *Session, handler Handler) (err error) {
 	// If this is a stanza, normalize the "from" attribute.
 	if stanza.Is(start.Name, s.in.XMLNS) {
 		for i, attr := range start.Attr {
-			if attr.Name.Local == "from" /*&& attr.Name.Space == start.Name.Space*/ {
+			if attr.Name.Local == "from" && attr.Name.Space == "" {
 				local := s.LocalAddr().Bare().String()
 				// Try a direct comparison first to avoid expensive JID parsing.
 				// TODO: really we should be parsing the JID here in case the server
@@ -644,7 +644,15 @@ func handleInputStream(s *Session, handler Handler) (err error) {
 	iqNeedsResp := typ == string(stanza.GetIQ) || typ == string(stanza.SetIQ)
 	// If the user did not write a response to an IQ, send a default one.
 	if iqOk && iqNeedsResp && !rw.wroteResp {
-		_, fromAttr := attr.Get(start.Attr, "from")
+		// Stanza attributes are unqualified: an attribute such as x:from is an
+		// extension attribute, not the sender's address.
+		var fromAttr string
+		for _, a := range start.Attr {
+			if a.Name.Local == "from" && a.Name.Space == "" {
+				fromAttr = a.Value
+				break
+			}
+		}
 		var to jid.JID
 		if fromAttr != "" {
 			to, err = jid.Parse(fromAttr)
@@ -680,6 +688,11 @@ func getIDTyp(attrs []xml.Attr) (int, int, string, string) {
 	idIdx := -1
 	typIdx := -1
 	for idx, attr := range attrs {
+		// The id and type attributes of a stanza are unqualified; attributes in
+		// some other namespace that happen to be called id or type are not them.
+		if attr.Name.Space != "" {
+			continue
+		}
 		switch attr.Name.Local {
 		case "id":
 			id = attr.Value
